@@ -61,6 +61,11 @@ pub struct Workload {
     /// over the first half of this set (a set that grew since it was last checked)
     #[serde(default)]
     pub prefix_prelude: bool,
+    /// The predicate store is keyed by the full (contract, predicate) address and nothing says
+    /// that the `predicate` half is unique on its own: predicates of different contracts are
+    /// registered under the *same* predicate hash (the first predicate's).
+    #[serde(default)]
+    pub alias_pred_hash: bool,
 }
 
 pub struct Mat {
@@ -120,6 +125,19 @@ impl Workload {
                 essential_hash::content_addr(&pr)
             } else {
                 ContentAddress(essential_hash::hash_bytes(format!("{pr:?}").as_bytes()))
+            };
+            // aliasing: reuse the first predicate's hash wherever that does not collide
+            let addr = match pred_addrs.first() {
+                Some(PredicateAddress { predicate: first, .. })
+                    if self.alias_pred_hash
+                        && !predicates.contains_key(&PredicateAddress {
+                            contract: ContentAddress(p.contract),
+                            predicate: first.clone(),
+                        }) =>
+                {
+                    first.clone()
+                }
+                _ => addr,
             };
             let pa = PredicateAddress {
                 contract: ContentAddress(p.contract),
